@@ -17,7 +17,7 @@ RULE = ("Hypothesis draws an environment, a differentiable scalar recipe (litera
         "least one function, reduction or * / ** node; the non-occurring class is judged for exact 0 and "
         "counted separately."
         '  Also: wrt may be an equal-by-name freshly created Variable; parameters are updated after differentiation and both the gradient already held and a newly requested one are judged at the new values; nested even powers, tiny/large constants and off-diagonal blocks of symmetric matrices are generated on purpose.')
-BUDGET = {"quick": {"workers": 16, "examples": 600}, "thorough": {"workers": 16, "examples": 8000}}
+BUDGET = {"quick": {"workers": 16, "examples": 900}, "thorough": {"workers": 16, "examples": 8000}}
 ASSUMPTIONS = ["the jet rules are validated against mpmath differentiation at start-up",
                "points within 0.05 of a non-smooth or undefined set are not judged"]
 MANIFEST = {
